@@ -523,6 +523,9 @@ pub fn exec(inp: &[u128]) -> (Vec<u128>, String, String) {
         // returned Ok; the case ends with a drain phase (sink ready, everything delivered, receiver pumping),
         // after which -- if no operation is pending -- every completed send must have arrived.
         // C03: after the drain phase no operation may still be pending.
+        if w.pair.net.a2b.over_budget() || w.pair.net.b2a.over_budget() {
+            w.oracle = Some("FAIL: C03 frame budget exceeded: an endpoint keeps emitting frames without making progress (livelock)".into());
+        }
         let st = w.status.lock().unwrap();
         let done = &st.completed_msgs;
         let got = &w.received_msgs;
